@@ -699,6 +699,11 @@ func (ex *Exec) access(p *Value, write bool, site ssa.Instruction) {
 		ex.reportRace(sc.w, true, site, write)
 	}
 	if write {
+		if os.Getenv("GOSYM_RACEDBG") != "" && strings.Contains(ex.site(site), os.Getenv("GOSYM_RACEDBG")) {
+			for i := range sc.reads {
+				fmt.Fprintf(os.Stderr, "RACEDBG write by t%d at %s: read t%d clock=%d site=%s known=%d\n", cur.id, ex.site(site), sc.reads[i].tid, sc.reads[i].clock, sc.reads[i].site, cur.vc.get(sc.reads[i].tid))
+			}
+		}
 		for i := range sc.reads {
 			if !hb(&sc.reads[i]) {
 				ex.reportRace(&sc.reads[i], false, site, true)
